@@ -165,8 +165,10 @@ def obs_events(chk):
             y2 = zoo.signal(rng, N + 5, cplx, 'noise')
             ev = {'ev': 'class', 'method': method, 'N': N, 'k': k, 'nfft': nfft, 'cplx': cplx, 'recompute': True}
 
+            nfft_l = max(nfft, N + 5)        # admissible (NFFT >= N) for both records
+
             def live():
-                p = MultiTapering(x.copy(), NW=NW, k=k, NFFT=nfft, method=method, scale_by_freq=False)
+                p = MultiTapering(x.copy(), NW=NW, k=k, NFFT=nfft_l, method=method, scale_by_freq=False)
                 p.psd
                 out = []
                 for y in (y1, y2):
@@ -174,7 +176,7 @@ def obs_events(chk):
                     out.append(np.array(p.psd))
                 return out
             ok1, a = call_guard(live)
-            ok2, b = call_guard(lambda: [np.array(MultiTapering(y.copy(), NW=NW, k=k, NFFT=nfft, method=method, scale_by_freq=False).psd) for y in (y1, y2)])
+            ok2, b = call_guard(lambda: [np.array(MultiTapering(y.copy(), NW=NW, k=k, NFFT=nfft_l, method=method, scale_by_freq=False).psd) for y in (y1, y2)])
             ev['raised'] = not (ok1 and ok2)
             if ok1 and ok2:
                 ev['len_ok'] = bool(all(len(u) == len(v) for u, v in zip(a, b)))
